@@ -9,6 +9,8 @@ package recover
 //@   property C01 C02 C03 C05 C06 C09 C18 C17
 //@   -- C09: a login is announced with the after-auth event (which is what starts the idle clock)
 //@   ensures[C09] login_announced: each Sess.Put("uid", _) => after Fire("After", EventAuth, _, _, _)
+//@   -- C09: the stamp the announcement queues is not taken back by anything queued after it
+//@   ensures[C09] stamp_survives: each Fire("After", EventAuth, _, _, _) => !(after Sess.DelAll(_)) && !(after Sess.Del("last_action"))
 //@   ensures[C17] no_secret_leak: secrets_clean
 //@   -- C05: the password is only changed on the strength of a token that decodes to
 //@   -- exactly 64 bytes whose first half selects the account and whose second half
@@ -40,6 +42,10 @@ package recover
 //@       before Fire("Before", EventAuthHijack, ?cu, _, _) -> (?hd, ?e) :: hd == false && e == nil && PID(cu) == v
 //@   ensures[C03] login_veto: each Sess.Put("uid", ?v) =>
 //@       before Fire("Before", EventAuth, ?cu, _, _) -> (?hd, ?e) :: hd == false && e == nil && PID(cu) == v
+//@   -- C03: the 2FA hijack parks the login for a later step that does not consult the veto again
+//@   -- (known finding on that step), so the hijack is only offered a login the veto let through
+//@   ensures[C03] veto_before_hijack: each Fire("Before", EventAuthHijack, ?hu, _, _) =>
+//@       before Fire("Before", EventAuth, ?cu, _, _) -> (?hd, ?e) :: hd == false && e == nil && cu == hu
 //@   ensures[C18] no_panic: !panics
 //@   ensures[C18] save_error_outcome: each Store.Save(_) -> ?e => e != nil ==> (result == e && !emits Sess.Put(_, _) && !emits Redirect(_))
 //@   ensures[C18] hash_error_outcome: each Hash.Generate(_) -> (_, ?e) => e != nil ==> (result == e && !emits Store.Save(_) && !emits Redirect(_))
